@@ -5,6 +5,7 @@ import (
 	"encoding/json"
 	"fmt"
 	"sync"
+	"time"
 
 	"github.com/dtn7/dtn7-go/verif/vrt"
 )
@@ -113,8 +114,15 @@ func schedWorker(task []byte) []byte {
 		return mustJSON(schedOut{Viol: []schedViol{{Key: "harness", Desc: err.Error()}}})
 	}
 	out := schedOut{Outcomes: map[string]int{}}
+	started := time.Now()
 	var explore func(prefix []int, split bool)
 	explore = func(prefix []int, split bool) {
+		// a task answers well before the supervisor's watchdog, which is reserved for real hangs: on a slow or
+		// loaded machine the subtree is cut (and reported as capped) instead
+		if !out.Poisoned && !t.Single && time.Since(started) > 120*time.Second {
+			out.Capped = true
+			return
+		}
 		if out.Poisoned || (t.MaxExecs > 0 && out.Execs >= t.MaxExecs) {
 			if !out.Poisoned {
 				out.Capped = true
